@@ -8,8 +8,18 @@ use std::panic::AssertUnwindSafe;
 
 pub fn object_data(seed: u64, f: usize) -> Vec<u8> {
     let mut rng = StdRng::seed_from_u64(seed ^ 0xD1CE ^ ((f as u64) << 16));
-    if (seed ^ f as u64) % 3 == 0 {
-        return crate::util::runs_data(&mut rng, f);
+    // data kinds by (seed, F): random bytes (half of the cases), runs of zero / constant / random bytes, and objects whose
+    // source blocks are byte-identical (all zero, one constant byte, a 16-byte period) - content a value- or
+    // content-dependent short-cut treats specially
+    match (seed ^ f as u64) % 8 {
+        0 | 1 => return crate::util::runs_data(&mut rng, f),
+        2 => return vec![0u8; f],
+        3 => return vec![0xA5u8; f],
+        4 => {
+            let pat: Vec<u8> = (0..16).map(|_| rng.random()).collect();
+            return (0..f).map(|i| pat[i % 16]).collect();
+        }
+        _ => {}
     }
     (0..f).map(|_| rng.random()).collect()
 }
